@@ -247,7 +247,7 @@ pub fn run(args: &Args) {
             }
         }
     }
-    let n = args.tier.pick(2000, 60_000);
+    let n = args.tier.pick(8000, 80_000);
     let res = vcore::run_prop_parallel(&report, "projects", n, vcore::num_workers(), driver::art_case_strategy, |spec| {
         driver::count_excluded(&report, spec, &ex);
         let case = driver::gen_case(spec, &ex);
